@@ -7,3 +7,7 @@ import RB.Proofs.C02
 import RB.Util.SettingsJson
 import RB.Model.Runs
 import RB.Proofs.C01
+import RB.Model.Adapters
+import RB.Util.AdapterJson
+import RB.Proofs.C12
+import RB.Proofs.C05
